@@ -12,6 +12,8 @@ For the generic row of every branch table (any number of rows), for respect_swit
     lines carry their length as weight; out-of-service buses are removed from the graph unless include_out_of_service.
 calc_distance_to_bus: the graph whose shortest paths are returned is a *multi* graph built with the caller's respect_switches /
 nogobuses / notravbuses (parallel branches keep their own weights; nx.single_source_dijkstra_path_length is trusted).
+
+Added later: every out-of-service bus that is a node is removed unless include_out_of_service, whatever other conditions hold.
 """
 from __future__ import annotations
 
